@@ -5,33 +5,33 @@ STD = [
 ]
 META = {
  "C01": dict(
-  extra_modules=["C01Cost", "TieEnv"],
+  extra_modules=["C01Cost", "TieEnv", "C05C03More"],
   rule="valid messages of each of the 43 RDATA kinds (plain and compressed) with every truncation and +-1 on every byte, all header-peek functions on every buffer length 0..13, bounded-exhaustive pointer graphs behind a question header, counts without body, pointer chains, random and mutated messages; each input is parsed by the library under catch_unwind with heap and time metering and by the Lean model; non-trivial = longer than a header; distinct = distinct (request, implementation output)",
   assumptions=STD + ["real time and real heap are observed on the sampled inputs; the theorems bound the model (no panic outcome, termination by construction)"],
   trusted=["heap metering by a counting global allocator, time by Instant"],
   timeout=dict(quick=600, thorough=7200)),
  "C06": dict(
-  extra_modules=["C06Errors", "C06Complete", "Tie"],
+  extra_modules=["C06Errors", "C06Complete", "Tie", "C10C06More"],
   rule="bounded-exhaustive: all buffers up to length L (quick 5, thorough 6) over {00,01,02,03,3F,40,80,C0,C1,'a'} at every start offset, plus random message-like buffers with label runs, pointer chains, self/forward/out-of-range pointers, reserved label types and names around the 255-byte limit; each (buffer, offset) is decoded by Name::parse (hook parse_name_at), by the Lean model and by the RFC 1035 reference decoder (spec.name); non-trivial = offset inside the buffer; distinct = distinct (request, output)",
   assumptions=STD, exhaustive=False, timeout=dict(quick=600, thorough=7200)),
  "C08": dict(
-  extra_modules=["C08Api", "Tie", "TieEnv"],
+  extra_modules=["C08Api", "Tie", "TieEnv", "C08C09More"],
   rule="exhaustive: all 65536 flag words x 4 ids through Packet::parse, all eight peek functions on all 65536 words x 2 count tuples, all 128x128 flag-set pairs through set/remove/has, all 6 opcodes x 13 rcodes x 128 flag subsets through build_bytes_vec; new_query / new_reply for 7 ids and into_reply / set_id / to_cache_flush_record on 300 (thorough 3000) random packets; every case compared with the model and with RFC 1035 4.1.1 positional arithmetic; every case is non-trivial; distinct = distinct (request, output)",
   assumptions=STD, exhaustive=True, timeout=dict(quick=600, thorough=1200)),
  "C18": dict(
-  extra_modules=["Tie", "TieEnv"],
+  extra_modules=["Tie", "TieEnv", "C18More"],
   rule="exhaustive: all 65536 codes through TYPE::from/u16::from, CLASS, QTYPE, QCLASS try_from and back; every supported record kind (built and parsed) x every question type; every class x qclass; compared with the model and with the IANA registry extract; distinct = distinct (request, output)",
   assumptions=STD, exhaustive=True, timeout=dict(quick=600, thorough=600)),
  "C02": dict(
-  extra_modules=["Tie"],
+  extra_modules=["Tie", "C05C03More"],
   rule="packets built through the public constructors: one record of each of the 43 RDATA kinds alone in each section, then random packets (0..8 entries per section, all classes, cache-flush/unicast bits, boundary integers, binary labels, names up to 255 bytes, with/without OPT, every named opcode/rcode); build_bytes_vec compared byte for byte with the model, Packet::parse of the bytes compared with the model, and the intrinsic oracle parse(build(p)) == p on every field; distinct = distinct (request, output); the excluded point TXT-without-strings is run as the last case",
   assumptions=STD, timeout=dict(quick=600, thorough=7200)),
  "C03": dict(
-  extra_modules=["C03Length", "Tie"],
+  extra_modules=["C03Length", "Tie", "C05C03More"],
   rule="packets as C02 generated with heavy suffix sharing (label pool of 8), plus large messages straddling 16 KiB (padding records, then names repeated on both sides of offset 16383) and up to ~60 KB; build_bytes_vec_compressed compared byte for byte with the model; oracle: parse(compressed) == parse(plain) and len(compressed) <= len(plain); distinct = distinct (request, output)",
   assumptions=STD, timeout=dict(quick=600, thorough=7200)),
  "C05": dict(
-  extra_modules=["C05Trailing", "TieEnv"],
+  extra_modules=["C05Trailing", "TieEnv", "C05C03More"],
   rule="reference-encoded messages (independent encoder, caller-chosen compression anywhere, OPT at any index) with RDLENGTH made larger/smaller than the natural size (+-1, +2, +7, to the end of the message, past it, zero), the same with surplus bytes inserted so that the envelope stays consistent and more records follow, every count +-1, truncations, plus valid library-built packets; Packet::parse compared exactly with the model; oracle: an independent RFC 1035 envelope walker in the harness, each returned question/record compared with its entry (owner, type, class, flush, ttl), and RDATA re-parsed from the message cut at the record's end; non-trivial = distinct (request, output)",
   assumptions=STD, timeout=dict(quick=600, thorough=7200)),
  "C11": dict(
@@ -39,27 +39,29 @@ META = {
   rule="parser-accepted inputs among: reference-encoded messages with arbitrary compression, unknown types/classes of content, empty RDATA, OPT anywhere, RDLENGTH/count perturbations, every 37th (quick) or every (thorough) header word; chain parse -> build (plain and compressed) -> parse on the library, each stage compared with the model; oracle: the re-parsed packet equals the first; non-trivial = accepted inputs",
   assumptions=STD, timeout=dict(quick=600, thorough=7200)),
  "C17": dict(
+  extra_modules=["C17More"],
   rule="bounded-exhaustive: all strings up to length 6 (thorough 7) over {a,A,1,-,_,.,\\,e-acute}, label lengths 0..70 alone and with neighbours, encoded name lengths 245..262 in three shapes, Label::new on boundary labels, all pairs of the 31 names with <=4 labels over {a,b} plus link-local case variants for is_subdomain_of / without / is_link_local; compared with the model and with the property's grammar re-stated in the harness; distinct = distinct (request, output)",
   assumptions=STD, exhaustive=True, timeout=dict(quick=600, thorough=7200)),
  "C19": dict(
+  extra_modules=["C19More"],
   rule="Unicode strings of byte lengths 0..12 and around every multiple of 254/255 up to 1020 with multi-byte characters placed across chunk boundaries and code points congruent to ';' or '=' mod 256 through TXT::try_from(&str) / String::try_from(TXT) and a wire round trip; attribute maps (0..4 entries, absent/empty/long values, some entries over 255 bytes) through TXT::try_from(HashMap) / attributes(); attributes() and long_attributes() on arbitrary character-strings (duplicates, invalid UTF-8, '=' first, look-alike characters); CharacterString::new on every length 0..300; all compared with the model and with an independent re-statement of the property; distinct = distinct (request, output)",
   assumptions=STD + ["String::from_utf8 = Lean core String.fromUTF8?"], timeout=dict(quick=600, thorough=7200)),
  "C13": dict(
-  extra_modules=["TieEnv"],
+  extra_modules=["TieEnv", "C13More"],
   rule="histories of add-authoritative / add-cached / remove / clear (0..9 operations) over names from a label alphabet chosen to collide under concatenation (foo, bar, foobar, _my, _mysrv, local, a 20-byte label, ...) and records A/AAAA/SRV/TXT/PTR in classes IN/CH, followed by a query of 0..2 questions (types A AAAA SRV TXT PTR ANY MAILB, classes IN CH ANY, unicast bit), two thirds of the questions aimed at registered names; build_reply on the real store (hook) compared with the model on (none | id, flags, unicast, multiset of answers, multiset of additionals); oracle: the property re-stated as a linear scan over the registered list with Name::is_subdomain_of; non-trivial = at least one operation and one question",
   assumptions=STD + ["radix_trie 0.2.1: subtrie(key) is Some iff a node sits exactly at the key's nibble path (root, inserted key, or branching point)"],
   timeout=dict(quick=600, thorough=7200)),
  "C20": dict(
-  extra_modules=["C20Refresh", "Tie", "TieEnv"],
+  extra_modules=["C20Refresh", "Tie", "TieEnv", "C20More"],
   rule="real-time histories (64 threads in parallel, 8 steps of 0.5 s): add-cached with TTL {0,1,2,1000} and cache-flush, add-authoritative, remove, clear on three A records (x.local, y.x.local, z.local); queries at quarter offsets with the authoritative (exact/subdomain), cached and combined filters; every call is bracketed by Instant::now(); the model is evaluated under the two extreme readings of the measured intervals and a query is compared only when both agree (otherwise counted inconclusive); oracle: the property re-stated over the recorded history; distinct = distinct (history prefix, query, answer)",
   assumptions=STD + ["std::time::Instant is a monotone clock; the runtime clock is observed through sleeps with measured intervals"],
   timeout=dict(quick=600, thorough=7200)),
  "C09": dict(
-  extra_modules=["Tie", "TieEnv"],
+  extra_modules=["Tie", "TieEnv", "C08C09More"],
   rule="all 13 named rcodes x versions {0,1,3,127,255} x UDP sizes {0,512,1232,65535} x 3 (thorough 12) shapes (0..3 options of lengths 0,1,3,255,1000; 0..2 other additional records): build_bytes_vec compared with the model and checked clause by clause against RFC 6891 by an independent walker (exactly one OPT, root owner, TYPE 41, CLASS = size, TTL octets, option triples, ARCOUNT, header low nibble), then parsed back; plus independently encoded messages with the OPT record at every index of the additional section, in the library's TTL layout and in the RFC's, through Packet::parse; the known finding opt-ttl-byte-order covers exactly the TTL octet order",
   assumptions=STD, timeout=dict(quick=600, thorough=7200)),
  "C10": dict(
-  extra_modules=["C10Svcb", "Tie"],
+  extra_modules=["C10Svcb", "Tie", "C10C06More"],
   rule="for each of the 39 typed variants other than OPT: 60 (thorough 2000) field tuples (boundary and random values, shared-suffix names, opaque tails of 0..1200 bytes); the library's serialisation compared byte for byte with an independent reference encoder written from the RFCs (harness) and with the Lean RFC schema encoder (spec.rdata), under the IANA code; the reference encoding parsed by the library and compared field by field; plus encodings breaking a structural rule (LOC version, SVCB key order, NSEC window order, inner length overruns) which must be rejected, and the ISDN-without-sub-address encoding of RFC 1183 (known finding); plus 400 (thorough 6000) SVCB/HTTPS records built through set_param and the typed helpers (mandatory, alpn, no-default-alpn, port, ipv4hint, ipv6hint) in random order with repeats and values at the 65535/65536 boundary, replayed by the model (svcb) and checked against an ordered map of RFC 9460 section 7 values kept by the harness",
   assumptions=STD, timeout=dict(quick=600, thorough=7200)),
  "C04": dict(
@@ -71,9 +73,11 @@ META = {
   rule="packets as C03 incl. messages crossing 16 KiB and the sweep of a multi-label name across offset 16383/16384: build_bytes_vec_compressed compared byte for byte with the model; every name site located by an independent schema-aware walker in the harness; each pointer checked: strictly backward, target <= 16383, not into the header, expansion = the intended name (from the uncompressed output), none inside no-compress RDATA (SRV NAPTR KX RRSIG NSEC IPSECKEY SVCB HTTPS), repeated compressible names written as exactly two bytes; plus write_compressed_to at stream offsets 2 and 13 must emit the same message",
   assumptions=STD, timeout=dict(quick=600, thorough=7200)),
  "C12": dict(
+  extra_modules=["C12C16More"],
   rule="parser-accepted inputs among reference-encoded hostile messages and library-built packets with mostly arbitrary-byte labels and strings (invalid UTF-8, NUL, dots, backslashes, empty and maximal strings): every public observer (Debug/Display of packet, names, labels, records, RDATA, character-strings; clone; into_owned; Hash; ==; is_subdomain_of/without/is_link_local; match_qtype/qclass; TXT attributes/long_attributes/String::try_from; SVCB params) applied to every part under catch_unwind; outcome class compared with the model's observers; for valid UTF-8 the exact Display text; non-trivial = accepted inputs",
   assumptions=STD + ["panics inside std::fmt and the exact lossy text are outside the model"], timeout=dict(quick=600, thorough=7200)),
  "C16": dict(
+  extra_modules=["C12C16More"],
   rule="for each of the 43 RDATA kinds 25 (thorough 400) records, each both built from parts and borrowed from a receive buffer: into_owned and clone compared with the original through every accessor (canonical text), ==, both serialisers and Hash; pairs differing only in TTL/cache-flush, and pairs of different records, through == / DefaultHasher / HashSet::contains; questions; names built from parts vs received; InstanceInformation built by inserting the same addresses and ports in different orders; compared with the model's into_owned / hash feeds",
   assumptions=STD + ["std Hash of slices/Vec/primitive types feeds length prefix and content; DefaultHasher is a function of the feed"], timeout=dict(quick=600, thorough=7200)),
  "C14": dict(
